@@ -147,7 +147,7 @@ func evalCreds(c *Ctx, tok string, seedKP nkeys.KeyPair, nl string, lead string)
 }
 
 func runC15(c *Ctx) {
-	c.Res.Rule = "user tokens from ~150 to ~4000 characters, and every fifteenth one very long (about 64 KiB to 130 KiB) (every base64url character class occurs) x user / account / operator seeds x LF / CRLF x leading blank lines: FormatUserConfig -> ParseDecoratedJWT / ParseDecoratedNKey / ParseDecoratedUserNKey must return the same token text and a key pair with the same seed and public key; DecorateJWT of every claim kind parses back unchanged, also when the returned slice is kept and parsed again after later DecorateJWT / FormatUserConfig calls; a bare token parses to itself; non-user tokens / seeds are refused; the user-only key parser refuses operator and account seeds. The model's hand matcher is compared with Go's regexp on structured adversarial text (dash runs of 2/3/5/6, dashes inside token lines, missing final newline, CR placement). non-trivial = distinct texts."
+	c.Res.Rule = "user tokens from ~150 to ~4000 characters, and every fifteenth one very long (about 64 KiB to 130 KiB) (every base64url character class occurs) x user / account / operator seeds x LF / CRLF x leading blank lines: FormatUserConfig -> ParseDecoratedJWT / ParseDecoratedNKey / ParseDecoratedUserNKey must return the same token text and a key pair with the same seed and public key; DecorateJWT of every claim kind parses back unchanged, also when the returned slice is kept and parsed again after later DecorateJWT / FormatUserConfig calls; a bare token parses to itself; non-user tokens / seeds are refused; the user-only key parser refuses operator and account seeds, also in indented (spaces / tabs), CRLF and bare-seed renderings and inside a full credentials file. The model's hand matcher is compared with Go's regexp on structured adversarial text (dash runs of 2/3/5/6, dashes inside token lines, missing final newline, CR placement). non-trivial = distinct texts."
 	// ---- round trips
 	for i := 0; i < c.N(60, 3000); i++ {
 		u := jwt.NewUserClaims(pubOf(kpN('U', c.R.Intn(4))))
@@ -245,6 +245,43 @@ func runC15(c *Ctx) {
 			c.Violate("user-only", fmt.Sprintf("ParseDecoratedUserNKey on a %c seed: err=%v", role, e2), c15Replay{"seed", string(d), "", ""})
 		}
 		c.Op("ok "+hx(string(seedOf(kpN(role, 2))))+" "+string(role), true, "seedtext", hx(string(d)))
+		// the same refusal under every rendering a file may arrive in: indented lines (spaces, tabs), a bare seed after
+		// blanks, a full credentials file carrying this seed, LF and CRLF — whichever path the parser takes
+		seed := string(seedOf(kpN(role, 2)))
+		utok, _ := jwt.NewUserClaims(pubOf(kpN('U', 1))).Encode(kpN('A', 1))
+		full, _ := jwt.FormatUserConfig(utok, seedOf(kpN('U', 1)))
+		fullSwapped := strings.Replace(string(full), string(seedOf(kpN('U', 1))), seed, 1)
+		indent := func(text, pre string) string {
+			ls := strings.Split(text, "\n")
+			for i := range ls {
+				if ls[i] != "" {
+					ls[i] = pre + ls[i]
+				}
+			}
+			return strings.Join(ls, "\n")
+		}
+		var renderings []string
+		for _, base := range []string{string(d), fullSwapped, seed + "\n"} {
+			for _, pre := range []string{"  ", "\t", "    ", " \t "} {
+				r := indent(base, pre)
+				renderings = append(renderings, r, strings.ReplaceAll(r, "\n", "\r\n"), "\n\n"+r)
+			}
+		}
+		for _, r := range renderings {
+			var kp2 nkeys.KeyPair
+			var e3 error
+			if p := safeCreds(func() { kp2, e3 = jwt.ParseDecoratedUserNKey([]byte(r)) }); p != "" {
+				c.Violate("panic", "ParseDecoratedUserNKey panicked: "+p, c15Replay{"seed", r, "", ""})
+				continue
+			}
+			c.Count("user-only-rendering")
+			if e3 == nil && kp2 != nil {
+				sd, _ := kp2.Seed()
+				if role != 'U' || !strings.HasPrefix(string(sd), "SU") {
+					c.Violate("user-only", fmt.Sprintf("ParseDecoratedUserNKey accepted a %c seed in an indented rendering (seed prefix %.2s)", role, sd), c15Replay{"seed", r, "", ""})
+				}
+			}
+		}
 	}
 	for _, s := range []string{"", "S", " ", "SX", "XU", "  SUAAA  ", "é", "SUé"} {
 		var d []byte
